@@ -814,6 +814,48 @@ func main() {
 		c.emit("]\n")
 	}
 
+	// package-level mutable state of the header codec: every file-level `var` of protocol/ttheader whose type
+	// is not `error` (sentinel errors are values, not state). Expected: none — Encode/Decode are functions of
+	// their arguments, which is what C14's `tth_stateless` relies on.
+	{
+		var vars []string
+		if pk := c.pkg("protocol/ttheader"); pk != nil {
+			for _, f := range pk.Syntax {
+				if strings.HasSuffix(pk.Fset.Position(f.Pos()).Filename, "_test.go") {
+					continue
+				}
+				for _, d := range f.Decls {
+					gd, ok := d.(*ast.GenDecl)
+					if !ok || gd.Tok != token.VAR {
+						continue
+					}
+					for _, sp := range gd.Specs {
+						for _, nm := range sp.(*ast.ValueSpec).Names {
+							if nm.Name == "_" {
+								continue
+							}
+							if o := pk.TypesInfo.Defs[nm]; o != nil && o.Type() != nil && o.Type().String() == "error" {
+								continue
+							}
+							vars = append(vars, nm.Name)
+						}
+					}
+				}
+			}
+		} else {
+			c.miss = append(c.miss, "package protocol/ttheader")
+		}
+		sort.Strings(vars)
+		c.emit("\n/-- file-level variables of protocol/ttheader that are not sentinel errors (expected: none) -/\ndef pkgVars_ttheader : List String := [")
+		for i, v := range vars {
+			if i > 0 {
+				c.emit(", ")
+			}
+			c.emit("%s", leanStr(v))
+		}
+		c.emit("]\n")
+	}
+
 	c.emit("\n/-- facts the extractor could not find in the source (expected: none) -/\ndef missing : List String := [")
 	for i, s := range c.miss {
 		if i > 0 {
